@@ -609,6 +609,17 @@ func init() {
 			c.Count(fmt.Sprintf("history-%d", i), true)
 		}
 		c.AddExtra("proviso_free_histories", nh)
+		// "never hangs": deep graphs with exponentially many paths from the root to one leaf, in four stage shapes
+		depth := 64
+		if c.Thorough {
+			depth = 300
+		}
+		for kind := range ladderKinds {
+			if err := ladderCheck(c, depth, kind, true); err != nil {
+				return err
+			}
+		}
+		c.AddExtra("ladders", fmt.Sprintf("BackPropagate over %d reconvergent stages returns within 60 s for the stage shapes %v", depth, ladderKinds))
 		return nil
 	})
 	replayers["C09"] = func(path string, w json.RawMessage) int {
